@@ -96,14 +96,18 @@ Definition bind_deletable (s : st) (pe : peer) (c : reg_call) : bool :=
   | _, _ => false
   end.
 
-(* C06: a (partial) detailed discovery notification is accepted iff it lists at least one entity,
-   every entry carries its state change, and no entry names another device than the sender's *)
+(* C06: a (partial) detailed discovery notification is accepted iff it lists at least one entity and
+   every entry carries its state change and a non-empty entity address, does not remove the device
+   information entity, and names no other device than the sender's *)
 Definition disc_notify_ok (pe : peer) (m : disc_msg) : bool :=
   match dm_ents m with
   | [] => false
-  | l => forallb (fun de => match de_state de with Some _ => true | None => false end) l &&
-         forallb (check_entity pe) l
+  | l => forallb (fun de => match de_state de with Some _ => true | None => false end && check_entity false pe de) l
   end.
+
+(* C06: a detailed discovery reply is accepted iff every entry carries a non-empty entity address *)
+Definition disc_reply_ok (m : disc_msg) : bool :=
+  forallb (fun de => match de_addr de with [] => false | _ => true end) (dm_ents m).
 
 Definition writable (lf : lfeat) (fn : N) : bool :=
   match assoc_N fn (lf_ops lf) with
@@ -121,7 +125,7 @@ Definition accepted (s : st) (pe : peer) (en : rent) (rf : rfeat) (lf : lfeat) (
     | CCall, PBindReq rc => bind_granted s pe rc
     | CCall, PBindDel rc => bind_deletable s pe rc
     | CCall, PSubData | CCall, PBindData => true
-    | CReply, PDiscovery _ => true
+    | CReply, PDiscovery m => disc_reply_ok m
     | CNotify, PDiscovery m => disc_notify_ok pe m
     | CReply, PUseCase _ | CNotify, PUseCase _ => true
     | _, _ => false
